@@ -17,7 +17,7 @@ RULE = (
     "loaded values of every variable incl. pixels, coordinates, encodings) are identical except "
     "encoding.preferred_chunksizes of the image variable, which must be {rows: min(rpc, N), "
     "columns: P}; each tree is then read again in pieces (rows 1.., every 3rd row, all rows) and "
-    "must return the pixels of its first full load. In half of the cases each judged open is the second call handed the same options dict object. Stage 'giant-chunk': one 1100-line image of 1.1 GB; with rpc=4096 the whole image is ONE request of more than 2^30 bytes; six lines before / at / beyond the first GiB of that request are compared with the bytes of the file, for rpc=64 and rpc=4096. Non-trivial: rpc1 != rpc2 and min(rpc1, rpc2) < N."
+    "must return the pixels of its first full load. In half of the cases each judged open is the second call handed the same options dict object; in half of the generated pairs both opens are served from index caches (complete in the user dir / written by the tool next to the images / a torn index in the user dir in front of a complete one next to the images). Stage 'giant-chunk': one 1100-line image of 1.1 GB; with rpc=4096 the whole image is ONE request of more than 2^30 bytes; six lines before / at / beyond the first GiB of that request are compared with the bytes of the file, for rpc=64 and rpc=4096. Non-trivial: rpc1 != rpc2 and min(rpc1, rpc2) < N."
 )
 ASSUMPTIONS = ["dask is absent: chunks=None; the advertised chunking is observed through .encoding"]
 BUDGET = {"quick": 120, "thorough": 1500}
@@ -39,6 +39,9 @@ def pair_cases(draw):
     case["rpc1"] = draw(st.sampled_from(opts))
     case["rpc2"] = draw(st.sampled_from(opts))
     case["fs"] = draw(st.sampled_from(["memory", "local"]))
+    # both opens may be served from index caches in some state: complete in the user dir /
+    # written by the tool next to the images / a torn index in the user dir in front of a complete one next to the images
+    case["cache_state"] = draw(st.sampled_from([None, None, None, "user", "adjacent", "torn-user+adjacent"]))
     return case
 
 
@@ -201,10 +204,39 @@ def run_case(case):
     spec = common.spec_from(case)
     files, info = product.build_product(spec)
     out = []
-    with harness.Materialised(files, case.get("fs", "memory")) as prod:
+    state = case.get("cache_state")
+    with harness.Materialised(files, "local" if state else case.get("fs", "memory")) as prod:
+        if state:
+            from vf.props import c07
+
+            images = info["names"]["sar_imagery"]
+            if state == "user":
+                _, err = harness.guard(harness.open_tree, prod.url, use_cache=False, create_cache=True, records_per_chunk=3)
+                if err is not None:
+                    return [harness.disc("exception", "open_alos2(create_cache=True)", "a tree", harness.exc_text(err))]
+            else:
+                for image in images:
+                    code, stderr = c07.run_cli(["--rpc", "5", str(prod.dir / image)])
+                    if code != 0:
+                        return [harness.disc("exception", "ceos-alos2-create-cache", "exit 0", stderr[:160])]
+                    if state == "torn-user+adjacent":
+                        p = c07.user_index_path(prod.url, image)
+                        p.parent.mkdir(parents=True, exist_ok=True)
+                        raw = (prod.dir / f"{image}.index").read_bytes()
+                        p.write_bytes(raw[: len(raw) // 2])
+        try:
+            return out + compare_rpcs(case, spec, prod, bool(state))
+        finally:
+            if state:
+                common.drop_user_cache(prod.url, info["names"]["sar_imagery"])
+
+
+def compare_rpcs(case, spec, prod, use_cache):
+    out = []
+    if True:
         flats = []
         for tag in ("rpc1", "rpc2"):
-            options = {"records_per_chunk": case[tag], "use_cache": False}
+            options = {"records_per_chunk": case[tag], "use_cache": use_cache}
             if (case["rpc1"] + case["rpc2"] + case.get("vseed", 0)) % 2:
                 # "build the options once, call often": the judged open is the second one that is
                 # handed this very dict object
